@@ -59,6 +59,10 @@ def make_instance(rng, tier):
     ploidy = int(rng.choice([2, 3, 4] if tier == "quick" else [2, 3, 4, 5]))
     n_pos = int(rng.integers(1, 6))
     n_haps = int(rng.integers(2, 7 if ploidy <= 3 else 6))
+    if rng.random() < 0.12:
+        # pooled / high-ploidy genotypes with few known haplotypes
+        ploidy = int(rng.choice([8, 10, 12]))
+        n_haps = int(rng.integers(2, 4)) if ploidy == 8 else 2
     haps, n_alleles = gen.gen_haplotype_set(rng, n_haps, n_pos)
     n_haps = len(haps)
     n_nucl = int(max(2, n_alleles.max()))
